@@ -17,18 +17,27 @@
 package c26
 
 import (
+	"bufio"
 	"bytes"
+	"crypto/sha256"
+	"encoding/hex"
 	"encoding/json"
+	"errors"
 	"fmt"
 	"io"
 	"os"
+	"os/exec"
 	"path/filepath"
+	"regexp"
+	"runtime/debug"
 	"strconv"
 	"strings"
+	"sync"
 	"testing"
 	"time"
 
 	"github.com/influxdata/influxdb/v2/pkg/durablequeue"
+	"verif/h/crashfs"
 	"verif/h/vlib"
 )
 
@@ -123,6 +132,9 @@ func short(b []byte) string {
 	if len(b) == 0 {
 		return `""`
 	}
+	if b[0] < 0x21 || b[0] > 0x7e {
+		return fmt.Sprintf("0x%02x*%d", b[0], len(b)) // garbage (never an entry of the alphabet)
+	}
 	return fmt.Sprintf("%c*%d", b[0], len(b))
 }
 
@@ -200,13 +212,27 @@ type HistoryResult struct {
 // PerformHistory is the history writer: it opens a queue on dir (an existing, empty directory) and performs ops,
 // checking every answer against the model. On return the queue is closed unless keepOpen (and no failure).
 func PerformHistory(dir string, cfg Cfg, ops []string, keepOpen bool) (res HistoryResult) {
+	return performHistory(dir, cfg, ops, keepOpen, nil)
+}
+
+// OpHook is called before (begin=true) and after (begin=false, with the op's result "ok" | "rejected:<class>")
+// every real call of a history; i = -1 is the initial Open. The crash family's history writer turns it into
+// BEGIN/ACK markers.
+type OpHook func(i int, op string, begin bool, result string)
+
+func performHistory(dir string, cfg Cfg, ops []string, keepOpen bool, hook OpHook) (res HistoryResult) {
+	if hook == nil {
+		hook = func(int, string, bool, string) {}
+	}
 	m := &Model{MaxSize: cfg.MaxSize}
 	res.Model = m
+	hook(-1, "open", true, "")
 	q, err := openQueue(dir, cfg, m.MaxSize)
 	if err != nil {
 		res.Fail = &Fail{"open-failed", "fresh", err.Error(), 0}
 		return
 	}
+	hook(-1, "open", false, "ok")
 	defer func() {
 		if res.Fail != nil || !keepOpen {
 			if q != nil {
@@ -219,12 +245,18 @@ func PerformHistory(dir string, cfg Cfg, ops []string, keepOpen bool) (res Histo
 	out := func(s string) { res.Outcomes = append(res.Outcomes, s) }
 
 	for i, op := range ops {
+		result := "ok"
+		if op != OpAppend1 && op != OpAppend9 && op != OpAppendSeg {
+			hook(i, op, true, "") // appends: after the (read-only) disk usage probe, right before the real call
+		}
 		switch op {
 		case OpAppend1, OpAppend9, OpAppendSeg:
 			b := EntryFor(cfg, op, i)
 			usage := diskUsage(dir)
+			hook(i, op, true, "")
 			err := q.Append(append([]byte(nil), b...))
 			if err != nil {
+				result = "rejected:" + errClass(err)
 				// rejected: the queue must be unchanged (verified by every later observation)
 				m.Rejected = append(m.Rejected, b)
 				out(op + ":rejected:" + errClass(err))
@@ -375,6 +407,7 @@ func PerformHistory(dir string, cfg Cfg, ops []string, keepOpen bool) (res Histo
 			res.Fail = &Fail{"harness", "unknown-op", op, i}
 			return
 		}
+		hook(i, op, false, result)
 		if f := checkHead(q, m, i, opClass(op)); f != nil {
 			res.Fail = f
 			return
@@ -575,8 +608,9 @@ func CheckRecovery(dir string, cfg Cfg, maxSize int64, e Expect, how string) (go
 var EndModes = []string{"live-current", "live-scanner", "reopen-current", "reopen-scanner"}
 
 type Case struct {
-	Ops []string `json:"ops"`
-	End string   `json:"end"`
+	Ops   []string   `json:"ops,omitempty"`
+	End   string     `json:"end,omitempty"`
+	Crash *CrashCase `json:"crash,omitempty"` // crash family (then Ops/End are unused)
 }
 
 type runResult struct {
@@ -703,10 +737,939 @@ func forEachSeq(alphabet []string, minLen, maxLen int, f func(ops []string) bool
 	}
 }
 
+// ================================================================ crash family (engine: verif/h/crashfs)
+//
+// A history writer (this binary re-executed under strace) performs a history through performHistory, bracketing the
+// initial Open (k=0) and every op (k=i+1) with BEGIN/ACK markers. Every prefix / torn-write / unsynced image of the
+// syscall log is materialized and recovered in a fresh subprocess with the real Queue.Open.
+
+// CrashHistory is one recorded history of the crash family.
+type CrashHistory struct {
+	Name string   `json:"name"`
+	Cfg  Cfg      `json:"cfg"`
+	Ops  []string `json:"ops"`
+	// LastOnly: only the images whose cut lies inside or after the LAST op are evaluated; the earlier cuts belong to
+	// the history without that op, which the enumerated family contains too (so every image is evaluated once).
+	LastOnly bool `json:"last_only,omitempty"`
+}
+
+// CrashAlphabet is the alphabet of the enumerated crash histories.
+var CrashAlphabet = []string{OpAppend1, OpAppend9, OpAppendSeg, OpAdvance, OpScanAll, OpReopen}
+
+// crashHistories lists the histories of a tier: hand-picked ones (every cut), then (thorough) every sequence of length
+// 0..3 over CrashAlphabet (cuts of the last op only).
+func crashHistories(tier string) []CrashHistory {
+	cfg := DefaultCfg
+	hs := []CrashHistory{
+		// appends into a fresh segment; a length word that equals a record boundary (9 B entry behind a 1 B entry);
+		// segment roll (the 4th append finds 51 > 40 bytes: create + footer of segment 2); append into the rolled segment
+		{Name: "append-roll", Cfg: cfg, Ops: []string{OpAppend1, OpAppend9, OpAppend9, OpAppend1, OpAppend9}},
+		// Queue.Advance footer writes; the second advance empties the full single segment (42 >= 40): addSegment +
+		// remove (trim); append + advance on the new segment (not full: no trim); append behind a fully advanced head
+		{Name: "advance-trim", Cfg: cfg, Ops: []string{OpAppend9, OpAppend9, OpAdvance, OpAdvance, OpAppend1, OpAdvance, OpAppend9}},
+		// segment-filling entry, roll on the next append, scanner advance that trims the head segment while a tail
+		// segment exists, reopen (Close + Open) between appends, scanner to the end, reopen
+		{Name: "scan-reopen", Cfg: cfg, Ops: []string{OpAppendSeg, OpAppend1, OpScan1, OpReopen, OpAppend9, OpScanAll, OpAppend1, OpReopen}},
+		// partial advance inside a segment, appends and rolls with a non-zero head position in the footer, advance in
+		// the head segment while the tail is another segment
+		{Name: "advance-append", Cfg: cfg, Ops: []string{OpAppend1, OpAppend1, OpAdvance, OpAppend9, OpAppend9, OpAdvance, OpAppend9, OpAppend1}},
+	}
+	if tier != "thorough" {
+		return hs
+	}
+	hs = append(hs,
+		// three segments alive, trims of two of them, reopen with several segments
+		CrashHistory{Name: "three-segments", Cfg: cfg, Ops: []string{OpAppendSeg, OpAppendSeg, OpAppend9, OpReopen, OpAdvance, OpAppend1, OpScanAll, OpScanAll, OpAppend9}},
+		// reopen of a fully advanced queue (Open trims), advance on the empty queue, appends afterwards
+		CrashHistory{Name: "empty-reopen", Cfg: cfg, Ops: []string{OpAppend9, OpAdvance, OpReopen, OpAdvance, OpAppend1, OpAppend9, OpReopen, OpScan1}},
+		// scanner over part of a segment, appends behind a moved head, roll, scanner to the end of the old segment
+		CrashHistory{Name: "scan-part", Cfg: cfg, Ops: []string{OpAppend9, OpAppend1, OpScan1, OpAppend9, OpAppend9, OpScan1, OpScanAll, OpAppend1}},
+	)
+	forEachSeq(CrashAlphabet, 0, 3, func(ops []string) bool {
+		hs = append(hs, CrashHistory{Name: "seq:" + strings.Join(ops, ","), Cfg: cfg, Ops: ops, LastOnly: true})
+		return true
+	})
+	return hs
+}
+
+// Entries appended after the recovery (never used by a history: op index i < 24 gives letters a..x).
+var (
+	postEntry1 = bytes.Repeat([]byte{'z'}, 9)
+	postEntry2 = bytes.Repeat([]byte{'y'}, 9)
+)
+
+// ---------------------------------------------------------------- history writer (runs under strace)
+
+type crashWriterSpec struct {
+	Dir     string   `json:"dir"`
+	Markers string   `json:"markers"`
+	Cfg     Cfg      `json:"cfg"`
+	Ops     []string `json:"ops"`
+}
+
+type markerOp struct {
+	I  int    `json:"i"`
+	Op string `json:"op"`
+}
+
+func crashWriterMain(js string) int {
+	var sp crashWriterSpec
+	if err := json.Unmarshal([]byte(js), &sp); err != nil {
+		fmt.Fprintln(os.Stderr, "c26 writer: bad spec:", err)
+		return 2
+	}
+	m, err := crashfs.OpenMarkers(sp.Markers)
+	if err != nil {
+		fmt.Fprintln(os.Stderr, "c26 writer:", err)
+		return 2
+	}
+	if err := os.Mkdir(sp.Dir, 0o777); err != nil {
+		fmt.Fprintln(os.Stderr, "c26 writer:", err)
+		return 2
+	}
+	h := performHistory(sp.Dir, sp.Cfg, sp.Ops, true, func(i int, op string, begin bool, result string) {
+		if begin {
+			m.Begin(i+1, markerOp{I: i, Op: op})
+		} else {
+			m.Ack(i+1, result)
+		}
+	})
+	if h.Fail != nil {
+		// the live behaviour of a history is the sequential family's business; a history that fails live is not recorded
+		fmt.Fprintf(os.Stderr, "c26 writer: history failed live at step %d: %s/%s: %s\n", h.Fail.Step, h.Fail.Clause, h.Fail.Feat, h.Fail.Why)
+		return 1
+	}
+	return 0 // the process simply exits with the queue open
+}
+
+// ---------------------------------------------------------------- recovery checker (fresh subprocess, batch of images)
+
+// CrashObs is what the real code did on one image with one read-out mode.
+type CrashObs struct {
+	ID    string `json:"id"`
+	Mode  string `json:"mode"`
+	Panic string `json:"panic,omitempty"`
+	Died  string `json:"died,omitempty"` // set by the parent: the recovery subprocess died or hung on this image, also when run alone
+	// stage 1: Open, one more Append, (copy of the directory without closing), complete read-out
+	OpenErr   string   `json:"open_err,omitempty"`
+	AppendErr string   `json:"append_err,omitempty"`
+	Got1      [][]byte `json:"got1,omitempty"`
+	Fail1     *ObsFail `json:"fail1,omitempty"`
+	// stage 2: second restart on the copy: Open, complete read-out, one more Append, read-out
+	Open2Err   string   `json:"open2_err,omitempty"`
+	Got2       [][]byte `json:"got2,omitempty"`
+	Fail2      *ObsFail `json:"fail2,omitempty"`
+	Append2Err string   `json:"append2_err,omitempty"`
+	Got3       [][]byte `json:"got3,omitempty"`
+	Fail3      *ObsFail `json:"fail3,omitempty"`
+	Stage      int      `json:"stage"` // 1: first read-out done, 2: second read-out done, 3: all done
+}
+
+type ObsFail struct {
+	Clause string `json:"clause"`
+	Feat   string `json:"feat"`
+	Why    string `json:"why"`
+}
+
+func obsFail(f *Fail) *ObsFail {
+	if f == nil {
+		return nil
+	}
+	return &ObsFail{f.Clause, f.Feat, f.Why}
+}
+
+func copyTree(src, dst string) error {
+	return filepath.Walk(src, func(p string, fi os.FileInfo, err error) error {
+		if err != nil {
+			return err
+		}
+		rel, _ := filepath.Rel(src, p)
+		t := filepath.Join(dst, rel)
+		if fi.IsDir() {
+			return os.MkdirAll(t, 0o777)
+		}
+		b, err := os.ReadFile(p)
+		if err != nil {
+			return err
+		}
+		return os.WriteFile(t, b, 0o666)
+	})
+}
+
+// crashRecoverOne runs the recovery procedure on the image in dir/img (dir/img2 is created for the second restart).
+func crashRecoverOne(dir string, cfg Cfg, how string, bound int, id string) (o CrashObs) {
+	o.ID, o.Mode = id, how
+	img, img2 := filepath.Join(dir, "img"), filepath.Join(dir, "img2")
+	scrubS := func(s string) string {
+		s = strings.ReplaceAll(s, img2, "<image2>")
+		return strings.ReplaceAll(s, img, "<image>")
+	}
+	defer func() {
+		for _, p := range []*string{&o.Panic, &o.OpenErr, &o.AppendErr, &o.Open2Err, &o.Append2Err} {
+			*p = scrubS(*p)
+		}
+		for _, f := range []*ObsFail{o.Fail1, o.Fail2, o.Fail3} {
+			if f != nil {
+				f.Why = scrubS(f.Why)
+			}
+		}
+	}()
+	panicked, desc := vlib.Guard(func() {
+		q1, err := openQueue(img, cfg, cfg.MaxSize)
+		if err != nil {
+			o.OpenErr = err.Error()
+			return
+		}
+		defer q1.Close()
+		if err := q1.Append(append([]byte(nil), postEntry1...)); err != nil {
+			o.AppendErr = err.Error()
+			return
+		}
+		if err := copyTree(img, img2); err != nil { // second process death: q1 is still open
+			panic("harness: copy: " + err.Error())
+		}
+		var f *Fail
+		o.Got1, f = Drain(q1, how, bound)
+		o.Fail1 = obsFail(f)
+		o.Stage = 1
+		q2, err := openQueue(img2, cfg, cfg.MaxSize)
+		if err != nil {
+			o.Open2Err = err.Error()
+			return
+		}
+		defer q2.Close()
+		o.Got2, f = Drain(q2, how, bound)
+		o.Fail2 = obsFail(f)
+		o.Stage = 2
+		if err := q2.Append(append([]byte(nil), postEntry2...)); err != nil {
+			o.Append2Err = err.Error()
+			return
+		}
+		o.Got3, f = Drain(q2, how, bound)
+		o.Fail3 = obsFail(f)
+		o.Stage = 3
+	})
+	if panicked {
+		o.Panic = desc
+	}
+	return
+}
+
+type crashRecJob struct {
+	Dirs   []string `json:"dirs"`
+	IDs    []string `json:"ids"`
+	Modes  []string `json:"modes"`
+	Cfgs   []Cfg    `json:"cfgs"`
+	Bounds []int    `json:"bounds"`
+	Out    string   `json:"out"`
+}
+
+func crashRecoverMain(jobPath string) int {
+	b, err := os.ReadFile(jobPath)
+	if err != nil {
+		fmt.Fprintln(os.Stderr, "c26 recover:", err)
+		return 2
+	}
+	var job crashRecJob
+	if err := json.Unmarshal(b, &job); err != nil {
+		fmt.Fprintln(os.Stderr, "c26 recover:", err)
+		return 2
+	}
+	out, err := os.OpenFile(job.Out, os.O_CREATE|os.O_WRONLY|os.O_APPEND, 0o666)
+	if err != nil {
+		fmt.Fprintln(os.Stderr, "c26 recover:", err)
+		return 2
+	}
+	debug.SetMaxStack(32 << 20) // a runaway recursion of the recovery code dies quickly
+	for i, d := range job.Dirs {
+		fmt.Fprintf(os.Stderr, "c26 recover: image %s\n", job.IDs[i])
+		o := crashRecoverOne(d, job.Cfgs[i], job.Modes[i], job.Bounds[i], job.IDs[i])
+		line, _ := json.Marshal(o)
+		out.Write(append(line, '\n'))
+	}
+	out.Close()
+	return 0
+}
+
+// ---------------------------------------------------------------- acknowledgement context and oracle
+
+// crashCtx is the model of one image: what was acknowledged before the cut and what was in flight.
+type crashCtx struct {
+	Appended [][]byte // acknowledged (accepted) entries
+	Head     int      // entries advanced past by acknowledged ops
+	Unacked  []byte   // entry of the append in flight (nil: none)
+	AdvMax   int      // number of entries the advance/scan in flight passes if it completes
+	Infl     string   // op class in flight: none | open | append | advance | scan | reopen
+	NAcked   int      // number of acknowledged ops of the history (without the initial Open)
+}
+
+func contextOf(cfg Cfg, im *crashfs.Image) (cx crashCtx, err error) {
+	cx.Infl = "none"
+	parse := func(o crashfs.Op) (markerOp, error) {
+		var mo markerOp
+		if err := json.Unmarshal([]byte(o.Op), &mo); err != nil {
+			return mo, fmt.Errorf("marker payload %q: %v", o.Op, err)
+		}
+		return mo, nil
+	}
+	rem := func() int { return len(cx.Appended) - cx.Head }
+	for _, a := range im.Acked() {
+		mo, err := parse(a)
+		if err != nil {
+			return cx, err
+		}
+		if mo.I < 0 {
+			continue
+		}
+		cx.NAcked++
+		switch mo.Op {
+		case OpAppend1, OpAppend9, OpAppendSeg:
+			if a.Result == "ok" {
+				cx.Appended = append(cx.Appended, EntryFor(cfg, mo.Op, mo.I))
+			}
+		case OpAdvance, OpScan1:
+			if rem() > 0 {
+				cx.Head++
+			}
+		case OpScanAll:
+			cx.Head = len(cx.Appended)
+		case OpReopen:
+		default:
+			return cx, fmt.Errorf("op %q is not part of the crash alphabet", mo.Op)
+		}
+	}
+	if f := im.InFlight(); f != nil {
+		mo, err := parse(*f)
+		if err != nil {
+			return cx, err
+		}
+		cx.Infl = opClass(mo.Op)
+		switch mo.Op {
+		case OpAppend1, OpAppend9, OpAppendSeg:
+			cx.Unacked = EntryFor(cfg, mo.Op, mo.I)
+		case OpAdvance, OpScan1:
+			cx.AdvMax = min(1, rem())
+		case OpScanAll:
+			cx.AdvMax = rem()
+		}
+	}
+	return cx, nil
+}
+
+// judgeReadout decides one complete read-out that must end with the entries appended after the recovery (post).
+// It returns the violated clause (or "") and, for the outcome histogram, where the read-out started relative to the
+// model head and whether the unacknowledged entry was delivered.
+func judgeReadout(got [][]byte, drainFail *ObsFail, cx crashCtx, post [][]byte) (clause, detail, start, unacked string) {
+	start, unacked = "?", "n/a"
+	if drainFail != nil {
+		return drainFail.Clause, drainFail.Why, start, unacked
+	}
+	if len(got) < len(post) {
+		return "post-recovery-append-not-delivered", fmt.Sprintf("read-out %s does not end with the entries %s appended (successfully) after the recovery", shortList(got), shortList(post)), start, unacked
+	}
+	body, tail := got[:len(got)-len(post)], got[len(got)-len(post):]
+	for i := range post {
+		if !bytes.Equal(tail[i], post[i]) {
+			return "post-recovery-append-not-delivered", fmt.Sprintf("read-out %s does not end with the entries %s appended (successfully) after the recovery", shortList(got), shortList(post)), start, unacked
+		}
+	}
+	e := Expect{Appended: cx.Appended, Head: cx.Head + cx.AdvMax, Exact: false, Unacked: cx.Unacked}
+	if f := Compare(body, e); f != nil {
+		why := f.Why
+		if cx.AdvMax > 0 {
+			why += fmt.Sprintf(" (the op in flight may move the head from %d up to %d)", cx.Head, cx.Head+cx.AdvMax)
+		}
+		if cx.Unacked != nil {
+			why += fmt.Sprintf(" (append of %s in flight: may follow as a whole)", short(cx.Unacked))
+		}
+		return f.Clause, why, start, unacked
+	}
+	n := len(body)
+	if cx.Unacked != nil {
+		unacked = "absent"
+		if n > 0 && bytes.Equal(body[n-1], cx.Unacked) {
+			unacked = "present"
+			n--
+		}
+	}
+	switch k := len(cx.Appended) - n; {
+	case k == cx.Head:
+		start = "at-head"
+	case k < cx.Head:
+		start = "before-head(redelivery)"
+	default:
+		start = "after-head(advance-in-flight-applied)"
+	}
+	return "", "", start, unacked
+}
+
+// judgeCrash applies the crash oracle to one observation under one acknowledgement context.
+func judgeCrash(o *CrashObs, cx crashCtx) (clause, stage, detail, start, unacked string) {
+	start, unacked = "?", "n/a"
+	switch {
+	case o.Died != "":
+		return "recovery-died", "recovery", "the recovery process did not survive the crash image: " + o.Died, start, unacked
+	case o.Panic != "":
+		return "panic", "recovery", "panic during recovery: " + o.Panic, start, unacked
+	case o.OpenErr != "":
+		return "open-failed", "recovery", "Queue.Open on the crash image: " + o.OpenErr, start, unacked
+	case o.AppendErr != "":
+		return "rejects-append", "recovery", "Append after the recovery: " + o.AppendErr, start, unacked
+	case o.Stage < 1:
+		return "harness", "recovery", "no read-out", start, unacked
+	}
+	var c, d string
+	if c, d, start, unacked = judgeReadout(o.Got1, o.Fail1, cx, [][]byte{postEntry1}); c != "" {
+		return c, "recovery", "after recovery + one more Append: " + d, start, unacked
+	}
+	if o.Open2Err != "" {
+		return "open-failed", "second-restart", "Queue.Open after the second process death: " + o.Open2Err, start, unacked
+	}
+	if o.Stage < 2 {
+		return "harness", "second-restart", "no read-out", start, unacked
+	}
+	if c, d, _, _ := judgeReadout(o.Got2, o.Fail2, cx, [][]byte{postEntry1}); c != "" {
+		return c, "second-restart", "after the second restart: " + d, start, unacked
+	}
+	if o.Append2Err != "" {
+		return "rejects-append", "second-restart", "Append after the second restart: " + o.Append2Err, start, unacked
+	}
+	if o.Stage < 3 {
+		return "harness", "second-restart", "no read-out", start, unacked
+	}
+	if o.Fail3 != nil {
+		return o.Fail3.Clause, "second-restart", "read-out after the Append that followed the second restart: " + o.Fail3.Why, start, unacked
+	}
+	if len(o.Got3) != 1 || !bytes.Equal(o.Got3[0], postEntry2) {
+		return "post-recovery-append-not-delivered", "second-restart", fmt.Sprintf("the drained queue delivered %s after Append(%s)", shortList(o.Got3), short(postEntry2)), start, unacked
+	}
+	return "", "", "", start, unacked
+}
+
+// ---------------------------------------------------------------- recording, image enumeration, driver
+
+var crashImgOpts = crashfs.Options{SyncClasses: []string{"[0-9]*"}, Torn: true, Unsynced: true}
+
+var crashModes = []string{"current", "scanner"}
+
+func selfEnv(extra ...string) []string {
+	var env []string
+	for _, e := range os.Environ() {
+		if strings.HasPrefix(e, "VERIF_WORKER") || strings.HasPrefix(e, "VERIF_REPLAY=") || strings.HasPrefix(e, "VERIF_CRASH_WRITER=") || strings.HasPrefix(e, "VERIF_C26_") {
+			continue
+		}
+		env = append(env, e)
+	}
+	return append(env, extra...)
+}
+
+func recordCrashHistory(scratch string, h CrashHistory) (*crashfs.Log, error) {
+	dir, err := os.MkdirTemp(scratch, "rec-")
+	if err != nil {
+		return nil, err
+	}
+	defer os.RemoveAll(dir)
+	sp := crashWriterSpec{Dir: filepath.Join(dir, "q"), Markers: filepath.Join(dir, "markers"), Cfg: h.Cfg, Ops: h.Ops}
+	js, _ := json.Marshal(sp)
+	return crashfs.Record(crashfs.RecordSpec{
+		Argv:       []string{os.Args[0], "-test.run", "^TestCheck$", "-test.timeout", "0"},
+		Env:        selfEnv("VERIF_CRASH_WRITER="+string(js), "GOMAXPROCS=1"),
+		DataDir:    sp.Dir,
+		MarkerFile: sp.Markers,
+	})
+}
+
+// prefixDigest pins the part of a log a descriptor depends on: every event up to the cut (and the torn write) with
+// paths, offsets and payload bytes. Two recordings with equal digests give byte-identical images.
+func prefixDigest(l *crashfs.Log, d crashfs.Descriptor) string {
+	n := d.Cut
+	if d.TornLen >= 0 && d.TornEvent >= n {
+		n = d.TornEvent + 1
+	}
+	if n > len(l.Events) {
+		return "log-too-short"
+	}
+	h := sha256.New()
+	for i := 0; i < n; i++ {
+		e := &l.Events[i]
+		fmt.Fprintf(h, "%s|%s|%s|%d|%d|%d|%x|", e.Op, e.Path, e.Path2, e.Ino, e.Off, e.Size, sha256.Sum256(e.Data))
+		if e.Marker != nil {
+			fmt.Fprintf(h, "%s|%d|%s|", e.Marker.Kind, e.Marker.K, e.Marker.Payload)
+		}
+	}
+	return hex.EncodeToString(h.Sum(nil)[:8])
+}
+
+var (
+	crashLogMu    sync.Mutex
+	crashLogCache = map[string]*crashfs.Log{} // recordings made by this process (the confirmation replays reuse them)
+)
+
+func crashHistoryKey(h CrashHistory) string {
+	b, _ := json.Marshal(struct {
+		Cfg Cfg
+		Ops []string
+	}{h.Cfg, h.Ops})
+	return string(b)
+}
+
+func findCrashLog(scratch string, h CrashHistory, d crashfs.Descriptor, digest string) (*crashfs.Log, string) {
+	crashLogMu.Lock()
+	l := crashLogCache[crashHistoryKey(h)]
+	crashLogMu.Unlock()
+	if l != nil && (digest == "" || prefixDigest(l, d) == digest) {
+		return l, ""
+	}
+	for try := 0; try < 4; try++ {
+		l, err := recordCrashHistory(scratch, h)
+		if err != nil {
+			return nil, "recording failed: " + err.Error()
+		}
+		crashLogMu.Lock()
+		crashLogCache[crashHistoryKey(h)] = l
+		crashLogMu.Unlock()
+		if digest == "" || prefixDigest(l, d) == digest {
+			return l, ""
+		}
+	}
+	return nil, "could not re-record a log with the same event prefix (the history is not deterministic enough for this descriptor)"
+}
+
+// isolatedTimeout bounds the recovery of ONE image in its own subprocess (normally milliseconds plus process start).
+const isolatedTimeout = 45 * time.Second
+
+type crashItem struct {
+	im    *crashfs.Image
+	mode  string
+	cfg   Cfg
+	bound int // read-out bound (a broken queue must not hang the check)
+}
+
+// runCrashRecovery materializes the items into dir/<i>/img and runs ONE recovery subprocess over them. Items missing
+// from the result were not reached (the subprocess died or hung at the first missing one).
+func runCrashRecovery(dir string, items []crashItem, timeout time.Duration) (map[string]*CrashObs, string, error) {
+	job := crashRecJob{Out: filepath.Join(dir, "out.jsonl")}
+	for i, it := range items {
+		d := filepath.Join(dir, strconv.Itoa(i))
+		if err := it.im.Materialize(filepath.Join(d, "img")); err != nil {
+			return nil, "", fmt.Errorf("materialize %v: %w", it.im.Desc, err)
+		}
+		job.Dirs = append(job.Dirs, d)
+		job.IDs = append(job.IDs, strconv.Itoa(i))
+		job.Modes = append(job.Modes, it.mode)
+		job.Cfgs = append(job.Cfgs, it.cfg)
+		job.Bounds = append(job.Bounds, it.bound)
+	}
+	jb, _ := json.Marshal(job)
+	jp := filepath.Join(dir, "job.json")
+	if err := os.WriteFile(jp, jb, 0o666); err != nil {
+		return nil, "", err
+	}
+	cmd := exec.Command(os.Args[0], "-test.run", "^TestCheck$", "-test.timeout", "0")
+	cmd.Env = selfEnv("VERIF_C26_RECOVER=" + jp)
+	var stderr strings.Builder
+	cmd.Stdout = &stderr
+	cmd.Stderr = &stderr
+	if err := cmd.Start(); err != nil {
+		return nil, "", err
+	}
+	done := make(chan error, 1)
+	go func() { done <- cmd.Wait() }()
+	timedOut := false
+	select {
+	case <-done:
+	case <-time.After(timeout):
+		timedOut = true
+		cmd.Process.Kill()
+		<-done
+	}
+	res := map[string]*CrashObs{}
+	if f, err := os.Open(job.Out); err == nil {
+		sc := bufio.NewScanner(f)
+		sc.Buffer(make([]byte, 1<<20), 64<<20)
+		for sc.Scan() {
+			var o CrashObs
+			if json.Unmarshal(sc.Bytes(), &o) == nil && o.ID != "" {
+				oo := o
+				res[o.ID] = &oo
+			}
+		}
+		f.Close()
+	}
+	t := stderr.String()
+	if timedOut {
+		t = "TIMEOUT (recovery hangs)\n" + t
+	}
+	return res, t, nil
+}
+
+var repoFrameRe = regexp.MustCompile(`(?m)^(github\.com/influxdata/influxdb/v2[^\s(]*)\(`)
+
+// deathClass turns the output of a recovery subprocess that died or hung into a short deterministic description.
+func deathClass(out string) string {
+	what := "died"
+	switch {
+	case strings.HasPrefix(out, "TIMEOUT"):
+		return "hang (no result within the time limit)"
+	case strings.Contains(out, "stack overflow") || strings.Contains(out, "goroutine stack exceeds"):
+		what = "fatal error: stack overflow"
+	case strings.Contains(out, "fatal error:"):
+		i := strings.Index(out, "fatal error:")
+		what = strings.SplitN(out[i:], "\n", 2)[0]
+	case strings.Contains(out, "panic:"):
+		i := strings.Index(out, "panic:")
+		what = strings.SplitN(out[i:], "\n", 2)[0]
+	}
+	if m := repoFrameRe.FindStringSubmatch(out); m != nil {
+		what += " @ " + m[1]
+	}
+	return what
+}
+
+// recoverAll runs the recovery for all items in subprocess batches, isolating an item that kills its subprocess.
+// expired (may be nil) is polled between batches; items not reached stay nil and capped is returned true.
+func recoverAll(scratch string, items []crashItem, expired func() bool) (obs []*CrashObs, notes map[int]string, capped bool, err error) {
+	obs = make([]*CrashObs, len(items))
+	notes = map[int]string{}
+	const batch = 512
+	for lo := 0; lo < len(items); {
+		if expired != nil && expired() {
+			return obs, notes, true, nil
+		}
+		hi := min(lo+batch, len(items))
+		dir, err := os.MkdirTemp(scratch, "b-")
+		if err != nil {
+			return nil, nil, false, err
+		}
+		res, _, err := runCrashRecovery(dir, items[lo:hi], 90*time.Second+time.Duration(hi-lo)*time.Second/2)
+		os.RemoveAll(dir)
+		if err != nil {
+			return nil, nil, false, err
+		}
+		next := hi
+		for i := lo; i < hi; i++ {
+			if o := res[strconv.Itoa(i-lo)]; o != nil {
+				obs[i] = o
+			} else if i < next {
+				next = i
+			}
+		}
+		if next == hi {
+			lo = hi
+			continue
+		}
+		// the subprocess died or hung at item `next`: run it alone, then go on behind it
+		d2, _ := os.MkdirTemp(scratch, "iso-")
+		r2, out2, err2 := runCrashRecovery(d2, items[next:next+1], isolatedTimeout)
+		os.RemoveAll(d2)
+		switch {
+		case err2 != nil:
+			notes[next] = "the isolated recovery could not be run: " + err2.Error()
+		case r2["0"] != nil:
+			obs[next] = r2["0"] // passed alone: the batch death was not caused by this image
+		default:
+			obs[next] = &CrashObs{ID: "0", Mode: items[next].mode, Died: deathClass(out2)}
+		}
+		for i := next + 1; i < hi; i++ {
+			obs[i] = nil
+		}
+		lo = next + 1
+	}
+	return obs, notes, false, nil
+}
+
+// CrashCase is the replayable form of one crash violation.
+type CrashCase struct {
+	History CrashHistory       `json:"history"`
+	Desc    crashfs.Descriptor `json:"image"`
+	Digest  string             `json:"log_prefix_digest"`
+	Mode    string             `json:"read_out"`
+	Cut     string             `json:"cut_description"`
+}
+
+func cutClass(im *crashfs.Image) string {
+	p := im.NextPath
+	if i := strings.Index(p, "->"); i >= 0 {
+		p = p[i+2:]
+	}
+	if p != "" {
+		if _, err := strconv.ParseUint(filepath.Base(p), 10, 64); err == nil {
+			p = "segment"
+		} else {
+			p = "other"
+		}
+	}
+	return strings.TrimSuffix(im.NextOp+":"+p, ":")
+}
+
+// crashSig is the class signature of a crash violation: clause, stage (first recovery | second restart), kind of cut
+// and the discriminating feature — for a failing Open the error class and whether acknowledged, not-advanced entries
+// exist at all (the in-flight op does not matter: any op that creates a segment file can be cut there), otherwise
+// the kind of op in flight.
+func crashSig(clause, stage string, o *CrashObs, im *crashfs.Image, cx crashCtx) string {
+	if clause == "open-failed" {
+		e := o.OpenErr
+		if stage == "second-restart" {
+			e = o.Open2Err
+		}
+		rem := "undelivered-entries=none"
+		if len(cx.Appended)-cx.Head > 0 {
+			rem = "undelivered-entries=some"
+		}
+		return vlib.JoinSig("crash", clause, stage, "cut="+im.Desc.Kind, "err="+openErrClass(e), rem)
+	}
+	return vlib.JoinSig("crash", clause, stage, "cut="+im.Desc.Kind, "inflight="+cx.Infl)
+}
+
+func openErrClass(e string) string {
+	switch {
+	case strings.HasPrefix(e, "seek ") && strings.HasSuffix(e, "invalid argument"):
+		return "seek-invalid-argument"
+	case strings.Contains(e, "EOF"):
+		return "EOF"
+	case strings.Contains(e, "bad read"):
+		return "bad-read"
+	}
+	return "other"
+}
+
+type ctxImg struct {
+	im *crashfs.Image
+	cx crashCtx
+}
+
+// crashPrep is one recorded history with its images grouped by content.
+type crashPrep struct {
+	h     CrashHistory
+	log   *crashfs.Log
+	uniq  []*crashfs.Image // first image of every distinct content
+	ctxs  [][]ctxImg       // per content: the (image, context) pairs to judge
+	first int              // index of this history's first item in the worker's item list
+}
+
+// prepareCrashHistory records one history and enumerates its images.
+func prepareCrashHistory(c *vlib.Ctx, scratch string, h CrashHistory) (pr *crashPrep, stop bool) {
+	l, err := recordCrashHistory(scratch, h)
+	if err != nil {
+		if errors.Is(err, crashfs.ErrNoTrace) {
+			c.Cap("crash family: strace cannot trace in this environment, no crash image was produced (" + err.Error() + ")")
+			return nil, true
+		}
+		c.HarnessError(fmt.Sprintf("crash family: recording history %s: %v", h.Name, err))
+		return nil, false
+	}
+	crashLogMu.Lock()
+	crashLogCache[crashHistoryKey(h)] = l
+	crashLogMu.Unlock()
+	c.Extra("crash_histories", 1)
+	c.Extra("crash_events", int64(len(l.Events)))
+	c.Extra("crash_syscalls_in_logs", int64(l.Syscalls))
+	pr = &crashPrep{h: h, log: l}
+	byHash := map[string]int{} // content hash -> index in uniq
+	var st crashfs.Stats
+	for im := range l.Images(crashImgOpts, &st) {
+		cx, err := contextOf(h.Cfg, im)
+		if err != nil {
+			c.HarnessError("crash family: " + err.Error())
+			return nil, false
+		}
+		if h.LastOnly && len(h.Ops) > 0 {
+			// keep the cuts inside or after the last op only
+			if !(cx.NAcked == len(h.Ops) || (cx.NAcked == len(h.Ops)-1 && cx.Infl != "none")) {
+				continue
+			}
+		}
+		gi, ok := byHash[im.Hash]
+		if !ok {
+			gi = len(pr.uniq)
+			byHash[im.Hash] = gi
+			pr.uniq = append(pr.uniq, im)
+			pr.ctxs = append(pr.ctxs, nil)
+		}
+		pr.ctxs[gi] = append(pr.ctxs[gi], ctxImg{im, cx})
+	}
+	for _, k := range []string{"P", "T", "U"} {
+		c.Extra("crash_images_generated_"+k, int64(st.Generated[k])) // by the engine, before deduplication and the last-op filter
+	}
+	c.Extra("crash_writes_with_subsampled_torn_lengths", int64(st.LongTorn))
+	c.Extra("crash_image_contents", int64(len(pr.uniq)))
+	return pr, false
+}
+
+// judgeCrashHistory judges every (image, context, read-out mode) of one prepared history; obs/notes are indexed like
+// the worker's item list.
+func judgeCrashHistory(c *vlib.Ctx, pr *crashPrep, obs []*CrashObs, notes map[int]string) {
+	h := pr.h
+	states := map[string]struct{}{}
+	sampled := false
+	for gi := range pr.uniq {
+		for mi, mode := range crashModes {
+			ii := pr.first + gi*len(crashModes) + mi
+			o := obs[ii]
+			if o == nil {
+				if n, ok := notes[ii]; ok {
+					c.HarnessError(fmt.Sprintf("crash family: history %s image %v: %s", h.Name, pr.uniq[gi].Desc, n))
+				}
+				continue
+			}
+			c.Extra("crash_recoveries", 1)
+			if o.Stage >= 1 {
+				states[shortList(o.Got1)] = struct{}{}
+			}
+			for _, ci := range pr.ctxs[gi] {
+				im, cx := ci.im, ci.cx
+				clause, stage, detail, start, unacked := judgeCrash(o, cx)
+				if clause == "harness" {
+					c.HarnessError(fmt.Sprintf("crash family: history %s image %v: %s", h.Name, im.Desc, detail))
+					continue
+				}
+				c.Eval(1)
+				if mi == 0 {
+					c.Extra("crash_images", 1)
+					c.Extra("crash_images_"+im.Desc.Kind, 1)
+					c.Extra("crash_cuts_at:"+cutClass(im), 1)
+				}
+				nops := cx.NAcked
+				if cx.Infl != "none" && cx.Infl != "open" {
+					nops++
+				}
+				if o.Stage >= 1 && len(o.Got1) > 1 {
+					c.Nontrivial("crash|" + strings.Join(h.Ops[:nops], ",") + "|" + im.Desc.String() + "|" + mode)
+				}
+				res := "ok"
+				if clause != "" {
+					res = "FAIL:" + clause + "@" + stage
+				}
+				c.Outcome(fmt.Sprintf("crash:%s/inflight=%s/unacked=%s/start=%s:%s", im.Desc.Kind, cx.Infl, unacked, start, res))
+				if clause != "" {
+					cutDesc := fmt.Sprintf("%v: %s %s", im.Desc, im.NextOp, im.NextPath)
+					c.Violation(crashSig(clause, stage, o, im, cx),
+						fmt.Sprintf("crash history %s %v, image %s, read-out %s; acknowledged %s head=%d, in flight: %s — %s", h.Name, h.Ops, cutDesc, mode, shortList(cx.Appended), cx.Head, cx.Infl, detail),
+						Case{Crash: &CrashCase{History: h, Desc: im.Desc, Digest: prefixDigest(pr.log, im.Desc), Mode: mode, Cut: cutDesc}})
+				} else if !sampled && !h.LastOnly && (h.Name == "append-roll" || h.Name == "advance-trim") && c.WantSample() && cx.Infl == "append" && im.Desc.Kind == crashfs.KindT && len(cx.Appended) > 1 {
+					sampled = true
+					c.Sample(map[string]any{"family": "crash", "history": h.Name, "ops": h.Ops, "image": im.Desc.String(), "at": im.NextOp + " " + im.NextPath,
+						"acknowledged": shortList(cx.Appended), "head": cx.Head, "in_flight": cx.Infl, "read_out_mode": mode, "read_out_after_recovery_and_one_append": shortList(o.Got1), "unacked_entry": unacked})
+				}
+			}
+		}
+	}
+	c.Extra("crash_distinct_states", int64(len(states)))
+}
+
+// runCrash is the crash phase of Run: this worker's share of the histories is recorded (one strace session each),
+// all their images are recovered in shared subprocess batches, then judged.
+func runCrash(c *vlib.Ctx) {
+	defer func() {
+		if r := recover(); r != nil { // a bug of the machinery must never look like a finding or kill the report
+			c.HarnessError(fmt.Sprintf("crash family: explorer panicked: %v\n%s", r, debug.Stack()))
+		}
+	}()
+	if os.Getenv("C26_ONLY") == "seq" {
+		return
+	}
+	scratch := vlib.Scratch("c26c-")
+	defer os.RemoveAll(scratch)
+	var preps []*crashPrep
+	var items []crashItem
+	for hi, h := range crashHistories(c.Tier) {
+		if !c.Mine(int64(hi)) {
+			continue
+		}
+		if c.Expired() {
+			c.Cap("budget expired inside the crash family (recording)")
+			break
+		}
+		pr, stop := prepareCrashHistory(c, scratch, h)
+		if stop {
+			return
+		}
+		if pr == nil {
+			continue
+		}
+		pr.first = len(items)
+		for _, im := range pr.uniq {
+			for _, mode := range crashModes {
+				items = append(items, crashItem{im, mode, h.Cfg, len(h.Ops) + 4})
+			}
+		}
+		preps = append(preps, pr)
+	}
+	obs, notes, capped, err := recoverAll(scratch, items, c.Expired)
+	if err != nil {
+		c.HarnessError("crash family: recovery batch: " + err.Error())
+		return
+	}
+	if capped {
+		c.Cap("budget expired inside the crash family (recovery)")
+	}
+	for _, pr := range preps {
+		judgeCrashHistory(c, pr, obs, notes)
+	}
+}
+
+func replayCrash(cs *CrashCase) (bool, string) {
+	scratch := vlib.Scratch("c26cr-")
+	defer os.RemoveAll(scratch)
+	l, msg := findCrashLog(scratch, cs.History, cs.Desc, cs.Digest)
+	if l == nil {
+		return false, msg
+	}
+	im, err := l.Build(cs.Desc, crashImgOpts)
+	if err != nil {
+		return false, "cannot rebuild the image: " + err.Error()
+	}
+	cx, err := contextOf(cs.History.Cfg, im)
+	if err != nil {
+		return false, err.Error()
+	}
+	dir, _ := os.MkdirTemp(scratch, "img-")
+	res, out, err := runCrashRecovery(dir, []crashItem{{im, cs.Mode, cs.History.Cfg, len(cs.History.Ops) + 4}}, isolatedTimeout)
+	if err != nil {
+		return false, "recovery could not be run: " + err.Error()
+	}
+	obs := fmt.Sprintf("crash history %v image %v (at the cut: %s %s; acknowledged %s head=%d, in flight: %s) read-out %s: ", cs.History.Ops, cs.Desc, im.NextOp, im.NextPath, shortList(cx.Appended), cx.Head, cx.Infl, cs.Mode)
+	o := res["0"]
+	if o == nil {
+		o = &CrashObs{ID: "0", Mode: cs.Mode, Died: deathClass(out)}
+	}
+	clause, stage, detail, _, _ := judgeCrash(o, cx)
+	if clause == "" {
+		return false, obs + "recovered queue satisfies the model: " + shortList(o.Got1)
+	}
+	return clause != "harness", obs + clause + "@" + stage + ": " + detail
+}
+
 // ReducedAlphabet drops the two ops that never change what is delivered (used for the deepest level only).
 var ReducedAlphabet = []string{OpAppend1, OpAppend9, OpAppendSeg, OpAdvance, OpScan1, OpScanAll, OpReopen, OpPurgeAll, OpShrink}
 
 func TestCheck(t *testing.T) {
+	if js := os.Getenv("VERIF_CRASH_WRITER"); js != "" {
+		os.Exit(crashWriterMain(js))
+	}
+	if jp := os.Getenv("VERIF_C26_RECOVER"); jp != "" {
+		os.Exit(crashRecoverMain(jp))
+	}
+	if n := os.Getenv("VERIF_C26_DUMP"); n != "" { // development aid: print the event list of one crash history
+		for _, h := range crashHistories("thorough") {
+			if h.Name != n {
+				continue
+			}
+			scratch := vlib.Scratch("c26d-")
+			defer os.RemoveAll(scratch)
+			l, err := recordCrashHistory(scratch, h)
+			if err != nil {
+				fmt.Println("record:", err)
+				return
+			}
+			for _, e := range l.Events {
+				e.Data = nil
+				b, _ := json.Marshal(e)
+				fmt.Println(string(b))
+			}
+		}
+		return
+	}
 	vlib.Main(t, &vlib.Check{
 		ID: "C26", Level: "model_checking", QuickBudgetS: 45, ThoroughBudgetS: 780,
 		Rule: "every op sequence of length <= d (quick d=4; thorough d=5, plus every sequence of length exactly 6 over the 9-op alphabet without the two delivery-neutral ops purgeNone and growMax) over the 11-op alphabet {append 1 B, append 9 B, append segment-filling 40 B, Queue.Advance, scanner Next x1 + Advance, scanner Next-to-end + Advance, reopen (Close + fresh Queue + Open), PurgeOlderThan(nothing old), PurgeOlderThan(all segments aged), SetMaxSize(80 = smallest legal), SetMaxSize(1024)} with max segment size 40 (rollover after <= 3 small entries), each replayed from scratch on the real Queue in a fresh directory, times 4 complete read-outs {live|after reopen} x {Current+Advance | scanner}; oracle = FIFO list model: Current after every op is the model head (or an error when empty), scanner output is a non-empty prefix of the remaining list, the final read-out equals the remaining list exactly, a rejected Append never shows up, an accepted Append never leaves more not-advanced payload than the max size, an Append is not rejected while the segment files plus the entry (+16 bytes framing) fit the max size. State = (sequence, read-out) node of the exploration tree, transition = one executed op, trace = one sequence validated against the implementation. Non-trivial = sequences containing at least one accepted append (distinct by construction). Crash images are NOT part of this run (added separately).",
@@ -719,6 +1682,10 @@ func TestCheck(t *testing.T) {
 			"which appends the size limit must reject is judged only by payload bytes (accepted => not-advanced payload <= max size), and which it must accept only by the bytes the segment files really occupy (files + entry + 16 <= max size => accepted); the exact accounting of headers/footers in between is not part of the statement",
 		},
 		Run: func(c *vlib.Ctx) {
+			runCrash(c) // crash family first: small and of fixed size, so a budget cap always lands in the sequence family
+			if os.Getenv("C26_ONLY") == "crash" {
+				return
+			}
 			base := vlib.Scratch("c26-")
 			defer os.RemoveAll(base)
 			depth, deep := 4, 0
@@ -784,6 +1751,9 @@ func TestCheck(t *testing.T) {
 			var cs Case
 			if err := json.Unmarshal(raw, &cs); err != nil {
 				return false, err.Error()
+			}
+			if cs.Crash != nil {
+				return replayCrash(cs.Crash)
 			}
 			base := vlib.Scratch("c26r-")
 			defer os.RemoveAll(base)
